@@ -101,6 +101,7 @@ class Engine(OpsMixin, ExprMixin, CallMixin, StmtMixin, BuiltinsMixin):
         self.ufun_rewrites = {}
         self.coerce_hooks = {}
         self.binder_depth = 0
+        self.truth_only = False
         self._bcount = 0
         self._in_binder_expr = False
         self.isinstance_hooks = {}
